@@ -206,89 +206,89 @@ func rulesC17(c *Ctx) {
 	// ---- R5 tail slicing ---------------------------------------------------------------------------
 	n5 := 0
 	for _, f := range append([]*ssa.Function{f}, privateHelpersOf(f)...) {
-	facts := factsFor(f)
-	eachInstr(f, func(b *ssa.BasicBlock, _ int, in ssa.Instruction) {
-		sl, ok := in.(*ssa.Slice)
-		if !ok || sl.High == nil || !isStringy(sl.X.Type()) {
-			return
-		}
-		bo, ok := sl.High.(*ssa.BinOp)
-		if !ok || bo.Op != token.SUB || !isLenOf(bo.X, sl.X) {
-			return
-		}
-		n5++
-		con := fmt.Sprintf("tail slice #%d in varutil.ReadArguments", n5)
-		okS := false
-		for k := range facts.At(b) {
-			call, isCall := k.v.(*ssa.Call)
-			if !isCall || !k.pol {
-				continue
+		facts := factsFor(f)
+		eachInstr(f, func(b *ssa.BasicBlock, _ int, in ssa.Instruction) {
+			sl, ok := in.(*ssa.Slice)
+			if !ok || sl.High == nil || !isStringy(sl.X.Type()) {
+				return
 			}
-			if cf := call.Call.StaticCallee(); cf == nil || qualName(cf) != "strings.HasSuffix" {
-				continue
+			bo, ok := sl.High.(*ssa.BinOp)
+			if !ok || bo.Op != token.SUB || !isLenOf(bo.X, sl.X) {
+				return
 			}
-			if !sameStringValue(call.Call.Args[0], sl.X, call, sl) {
-				continue
-			}
-			suf := call.Call.Args[1]
-			if kk, isK := constInt(bo.Y); isK {
-				if s, isS := constString(suf); isS && int64(len(s)) >= kk {
+			n5++
+			con := fmt.Sprintf("tail slice #%d in varutil.ReadArguments", n5)
+			okS := false
+			for k := range facts.At(b) {
+				call, isCall := k.v.(*ssa.Call)
+				if !isCall || !k.pol {
+					continue
+				}
+				if cf := call.Call.StaticCallee(); cf == nil || qualName(cf) != "strings.HasSuffix" {
+					continue
+				}
+				if !sameStringValue(call.Call.Args[0], sl.X, call, sl) {
+					continue
+				}
+				suf := call.Call.Args[1]
+				if kk, isK := constInt(bo.Y); isK {
+					if s, isS := constString(suf); isS && int64(len(s)) >= kk {
+						okS = true
+					}
+				} else if isLenOf(bo.Y, suf) {
 					okS = true
 				}
-			} else if isLenOf(bo.Y, suf) {
-				okS = true
 			}
-		}
-		// the guarantee may be the helper's precondition: the sliced string is a parameter and
-		// every call site passes a value already known to end with a long-enough constant suffix
-		if pp, isP := sl.X.(*ssa.Parameter); isP && !okS {
-			if kk, isK := constInt(bo.Y); isK {
-				pi := -1
-				for i, q := range f.Params {
-					if q == pp {
-						pi = i
+			// the guarantee may be the helper's precondition: the sliced string is a parameter and
+			// every call site passes a value already known to end with a long-enough constant suffix
+			if pp, isP := sl.X.(*ssa.Parameter); isP && !okS {
+				if kk, isK := constInt(bo.Y); isK {
+					pi := -1
+					for i, q := range f.Params {
+						if q == pp {
+							pi = i
+						}
 					}
-				}
-				sites, good := 0, true
-				for _, g := range append([]*ssa.Function{c.P.Func("varutil", "", "ReadArguments")}, privateHelpersOf(c.P.Func("varutil", "", "ReadArguments"))...) {
-					if g == nil {
-						continue
-					}
-					gf := factsFor(g)
-					for _, ci := range Calls(g) {
-						if ci.Static != f || pi < 0 || pi >= len(ci.Common.Args) {
+					sites, good := 0, true
+					for _, g := range append([]*ssa.Function{c.P.Func("varutil", "", "ReadArguments")}, privateHelpersOf(c.P.Func("varutil", "", "ReadArguments"))...) {
+						if g == nil {
 							continue
 						}
-						sites++
-						arg := ci.Common.Args[pi]
-						found := false
-						for k := range gf.At(ci.Block) {
-							call, isCall := k.v.(*ssa.Call)
-							if !isCall || !k.pol {
+						gf := factsFor(g)
+						for _, ci := range Calls(g) {
+							if ci.Static != f || pi < 0 || pi >= len(ci.Common.Args) {
 								continue
 							}
-							if cf := call.Call.StaticCallee(); cf == nil || qualName(cf) != "strings.HasSuffix" {
-								continue
+							sites++
+							arg := ci.Common.Args[pi]
+							found := false
+							for k := range gf.At(ci.Block) {
+								call, isCall := k.v.(*ssa.Call)
+								if !isCall || !k.pol {
+									continue
+								}
+								if cf := call.Call.StaticCallee(); cf == nil || qualName(cf) != "strings.HasSuffix" {
+									continue
+								}
+								if !sameStringValue(call.Call.Args[0], arg, call, ci.Instr) {
+									continue
+								}
+								if sfx, isS := constString(call.Call.Args[1]); isS && int64(len(sfx)) >= kk {
+									found = true
+								}
 							}
-							if !sameStringValue(call.Call.Args[0], arg, call, ci.Instr) {
-								continue
+							if !found {
+								good = false
 							}
-							if sfx, isS := constString(call.Call.Args[1]); isS && int64(len(sfx)) >= kk {
-								found = true
-							}
-						}
-						if !found {
-							good = false
 						}
 					}
-				}
-				if sites > 0 && good {
-					okS = true
+					if sites > 0 && good {
+						okS = true
+					}
 				}
 			}
-		}
-		c.Check(okS, "R5", con, sl.Pos(), "dominated by HasSuffix of the same string with a suffix at least as long as what is cut", "the tail is cut without a dominating HasSuffix guarantee — a short string slices out of range (panic)")
-	})
+			c.Check(okS, "R5", con, sl.Pos(), "dominated by HasSuffix of the same string with a suffix at least as long as what is cut", "the tail is cut without a dominating HasSuffix guarantee — a short string slices out of range (panic)")
+		})
 	}
 	c.Floor("R5", n5, 1)
 
